@@ -721,6 +721,40 @@ func opsSpace(c *mc.Ctx, els []*element, reps []*rrep) {
 					if !bytes.Equal(encOf(&al), wantSum) {
 						w.Fail("RistrettoPoint.Add/alias", fmt.Sprintf("x.Add(x,b) for %s", id), nil)
 					}
+					// every other aliasing pattern of receiver and operands (the receiver may be an operand, as for
+					// every other method of the library): results must not depend on it
+					al.Set(b.r)
+					if al.Add(a.r, &al); !bytes.Equal(encOf(&al), wantSum) {
+						w.Fail("RistrettoPoint.Add/alias", fmt.Sprintf("x.Add(a,x) for %s", id), nil)
+					}
+					al.Set(a.r)
+					if al.Sub(&al, b.r); !bytes.Equal(encOf(&al), wantDiff) {
+						w.Fail("RistrettoPoint.Sub/alias", fmt.Sprintf("x.Sub(x,b) for %s: got %x want %x", id, encOf(&al), wantDiff), nil)
+					}
+					al.Set(b.r)
+					if al.Sub(a.r, &al); !bytes.Equal(encOf(&al), wantDiff) {
+						w.Fail("RistrettoPoint.Sub/alias", fmt.Sprintf("x.Sub(a,x) for %s: got %x want %x", id, encOf(&al), wantDiff), nil)
+					}
+					if ia == ib && ca == cb && v == 0 {
+						al.Set(a.r)
+						if al.Sub(&al, &al); al.IsIdentity() != true {
+							w.Fail("RistrettoPoint.Sub/alias", fmt.Sprintf("x.Sub(x,x) is not the identity for %s", id), nil)
+						}
+						al.Set(a.r)
+						al.Add(&al, &al)
+						var dbl curve.RistrettoPoint
+						dbl.Add(a.r, a.r)
+						if al.Equal(&dbl) != 1 {
+							w.Fail("RistrettoPoint.Add/alias", fmt.Sprintf("x.Add(x,x) for %s", id), nil)
+						}
+						al.Set(a.r)
+						al.Neg(&al)
+						var ng curve.RistrettoPoint
+						ng.Neg(a.r)
+						if al.Equal(&ng) != 1 {
+							w.Fail("RistrettoPoint.Neg/alias", fmt.Sprintf("x.Neg(x) for %s", id), nil)
+						}
+					}
 				}
 			}
 		}
